@@ -61,7 +61,12 @@ def gen_pitch(rng):
     return rng.choice(LETTERS) * rng.choice([1, 1, 1, 2, 2, 3, 4])
 
 
+PLAIN_ACC = False      # set by generators that must stay inside the agnostic encodings' quantifier (no natural / display)
+
+
 def gen_accidental(rng, allow_display=True):
+    if PLAIN_ACC:
+        return rng.choice(['', '', '', '#', '-', '##', '--'])
     a = rng.choice(['', '', '', '#', '-', 'n', '##', '--', '###', '---'])
     if a and allow_display and rng.random() < 0.25:
         a += rng.choice(['x', 'X', 'i', 'I', 'j', 'Z', 'y', 'yy', 'Y', 'YY'])
